@@ -577,12 +577,14 @@ fn callee_j<'tcx>(tcx: TyCtxt<'tcx>, te: TypingEnv<'tcx>, did: DefId, args: ty::
     ];
     // generic args
     let mut ga = Vec::new();
+    let mut ga_nd = Vec::new();
     let mut closures = Vec::new();
     let mut fnitems = Vec::new();
     for a in args.iter() {
         match a.kind() {
             GenericArgKind::Type(t) => {
                 ga.push(J::s(&t.to_string()));
+                ga_nd.push(J::Bool(t.needs_drop(tcx, te)));
                 // closures (possibly behind references) and fn items among the generic arguments
                 let mut tt = t;
                 while let ty::Ref(_, inner, _) = tt.kind() {
@@ -595,11 +597,15 @@ fn callee_j<'tcx>(tcx: TyCtxt<'tcx>, te: TypingEnv<'tcx>, did: DefId, args: ty::
                     fnitems.push(J::s(&uid(tcx, *fd)));
                 }
             }
-            GenericArgKind::Const(c) => ga.push(J::s(&format!("{}", c))),
+            GenericArgKind::Const(c) => {
+                ga.push(J::s(&format!("{}", c)));
+                ga_nd.push(J::Bool(false));
+            }
             GenericArgKind::Lifetime(_) => {}
         }
     }
     v.push(("substs", J::Arr(ga)));
+    v.push(("substs_needs_drop", J::Arr(ga_nd)));
     v.push(("closure_args", J::Arr(closures)));
     v.push(("fn_args", J::Arr(fnitems)));
 
